@@ -41,7 +41,9 @@ META = {
             "is outside the model, and on the real library transparency does NOT follow from the asserted relation "
             "preserve >= settlement alone (known finding ctx-keystone-dealloc). Direct oracle on the rebuilt library: "
             "twin instances on long histories, F saving and finalizing after every step (plain instance + public "
-            "finalizeBlocks(), and loaded instance with automatic finalization, also with lazy saves), N never "
+            "finalizeBlocks(), loaded instance with automatic finalization, lazy saves, finalizeBlocks() with unsaved blocks "
+            "on the active chain and right after an unsaved deep switch so that the requested and the actually "
+            "finalized block differ), N never "
             "finalizing: equal answers of acceptBlockHeader/acceptBlock/setState/comparePopScore/getPopPayout for "
             "every candidate descending from F's final block, refusal of every candidate forking below it, monotone "
             "final block, equal state of the retained part of all three trees; finalizeBlocks of the extracted model "
@@ -322,9 +324,9 @@ def run(ctx):
     # (mode, save_every, histories, steps)
     # save_every 90 (about 15 chain blocks > alt_preserve): finalization then jumps by more than the preserved window
     # in one call, so blocks are deallocated that were never marked final before (fix 057feaed)
-    plan = [("fin", 1, 4, 110), ("loaded", 1, 4, 110), ("loaded", 3, 3, 110), ("fin", 4, 2, 110), ("fin", 90, 2, 150)] if quick else \
+    plan = [("fin", 1, 4, 110), ("loaded", 1, 4, 110), ("loaded", 3, 3, 110), ("fin", 4, 2, 110), ("fin", 90, 2, 150), ("finx", 45, 2, 110), ("finy", 3, 3, 130)] if quick else \
            [("fin", 1, 40, 160), ("loaded", 1, 40, 160), ("loaded", 3, 30, 160), ("fin", 4, 20, 160), ("loaded", 7, 20, 200),
-            ("fin", 90, 30, 200), ("fin", 16, 10, 200)]
+            ("fin", 90, 30, 200), ("fin", 16, 10, 200), ("finx", 45, 30, 160), ("finx", 20, 20, 160), ("finy", 3, 40, 200)]
     evaluations = 0
     hno = 0
     found = False
@@ -332,10 +334,10 @@ def run(ctx):
         hs_ = []
         for _ in range(count):
             hno += 1
-            g, ops = S.gen_twin(ctx.rng.fork(), CFG, steps)
+            g, ops = S.gen_twin(ctx.rng.fork(), CFG, steps, macro=(mode == "finy"))
             hs_.append((hno, (g, ops)))
             stats["steps"] += len(ops)
-        sc = build_script(hs_, mode, save_every, corr_every=(2 if mode == "fin" else 0))
+        sc = build_script(hs_, mode, save_every, corr_every=(2 if mode == "fin" else (3 if mode == "finx" else 0)))
         rc, res, orc, err = run_script(binary, sc, ctx.work, "twin_%s_%d.txt" % (mode, save_every))
         crashed_h = None
         if rc != 0:
@@ -354,7 +356,7 @@ def run(ctx):
                 fails[crashed_h] = f1
             else:
                 ctx.broken.append("runner: h_store rc=%d %s" % (rc, err[-300:]))
-        if okm and mode == "fin":
+        if okm and mode in ("fin", "finx", "finy"):
             # model/implementation disagreement on finalizeBlocks: the model is not the specification, so look for a
             # concrete failing input first (the twin oracle of the same history), otherwise name the correspondence
             cbad = correspondence(ctx, model, sc, res, dict(hs_), stats)
